@@ -76,4 +76,72 @@ theorem encodeHeaderCompressed_tie (c u : BitVec 32) (sc : Bool) (hc : c.toNat <
     rw [Nat.shiftLeft_eq]; omega
   cases sc <;> simp [BitVec.toNat_or, BitVec.toNat_shiftLeft, h1, h2, h3, Segment.compressedHeaderLength]
 
+/-! ### `segment/decode.go`: the fields `decodeSegmentHeader` extracts after its CRC check -/
+
+theorem toNat_low17 (w : BitVec 64) : (BitVec.setWidth 32 (w &&& 131071#64)).toNat = w.toNat &&& 131071 := by
+  rw [BitVec.toNat_setWidth, BitVec.toNat_and]
+  have e : (131071#64 : BitVec 64).toNat = 131071 := rfl
+  rw [e]
+  have h : w.toNat &&& 131071 ≤ 131071 := Nat.and_le_right
+  exact Nat.mod_eq_of_lt (by omega)
+
+theorem beq_one_iff (w : BitVec 64) : ((w &&& 1#64) == 1#64) = decide (w.toNat &&& 1 = 1) := by
+  have e : (1#64 : BitVec 64).toNat = 1 := rfl
+  by_cases h : w.toNat &&& 1 = 1
+  · have : (w &&& 1#64) = 1#64 := by
+      apply BitVec.eq_of_toNat_eq; rw [BitVec.toNat_and, e, h]
+    simp [this, h]
+  · have : (w &&& 1#64) ≠ 1#64 := by
+      intro hc; apply h
+      have := congrArg BitVec.toNat hc
+      rwa [BitVec.toNat_and, e] at this
+    rw [decide_eq_false h]
+    exact beq_false_of_ne this
+
+theorem beq_zero32_iff (x : BitVec 32) : (x == 0#32) = decide (x.toNat = 0) := by
+  by_cases h : x = 0#32
+  · subst h; simp
+  · have : x.toNat ≠ 0 := fun e => h (BitVec.eq_of_toNat_eq (by simpa using e))
+    simp [h, this]
+
+/-- `decodeSegmentHeader` as written, after the CRC check, without a compressor: what it puts into the `Header` -/
+theorem decodeFields_nil (crc : BitVec 32) (w : BitVec 64) :
+    decodeSegmentHeaderFields crc w true =
+      (decide ((w.toNat >>> 17) &&& 1 = 1), BitVec.setWidth 32 (w &&& 131071#64), 0#32, crc, false) := by
+  unfold decodeSegmentHeaderFields
+  simp only [if_true, beq_one_iff, BitVec.toNat_ushiftRight]
+
+/-- … and with a compressor: the two 17-bit lengths, swapped back when the uncompressed length is announced as 0 -/
+theorem decodeFields_some (crc : BitVec 32) (w : BitVec 64) :
+    decodeSegmentHeaderFields crc w false =
+      (if (w.toNat >>> 17) &&& 131071 = 0 then
+        (decide ((w.toNat >>> 34) &&& 1 = 1), BitVec.setWidth 32 (w &&& 131071#64), 0#32, crc, false)
+       else
+        (decide ((w.toNat >>> 34) &&& 1 = 1), BitVec.setWidth 32 ((w >>> (17 : Nat)) &&& 131071#64),
+          BitVec.setWidth 32 (w &&& 131071#64), crc, false)) := by
+  unfold decodeSegmentHeaderFields
+  have hz : (BitVec.setWidth 32 ((w >>> (17 : Nat)) &&& 131071#64) == 0#32) = decide ((w.toNat >>> 17) &&& 131071 = 0) := by
+    rw [beq_zero32_iff, toNat_low17, BitVec.toNat_ushiftRight]
+  have h34 : ((w >>> (17 : Nat)) >>> (17 : Nat)).toNat = w.toNat >>> 34 := by
+    rw [BitVec.toNat_ushiftRight, BitVec.toNat_ushiftRight, ← Nat.shiftRight_add]
+  by_cases h : (w.toNat >>> 17) &&& 131071 = 0
+  · simp only [Bool.false_eq_true, if_false, hz, h, decide_true, if_true, beq_one_iff, h34]
+  · simp only [Bool.false_eq_true, if_false, hz, h, decide_false, beq_one_iff, h34]
+
+/-- the header word of `encodeHeaderUncompressed` as written -/
+theorem encodeHeaderUncompressed_word (l : BitVec 32) (sc : Bool) (h : l.toNat < 2147483648) :
+    (encodeHeaderUncompressed l sc).1.toNat = (l.toNat ||| (if sc then 1 <<< 17 else 0)) := by
+  unfold encodeHeaderUncompressed
+  cases sc <;> simp [BitVec.toNat_or, signExtend64_nonneg l h]
+
+/-- the header word of `encodeHeaderCompressed` as written -/
+theorem encodeHeaderCompressed_word (c u : BitVec 32) (sc : Bool) (hc : c.toNat < 131072) (hu : u.toNat < 131072) :
+    (encodeHeaderCompressed c u sc).1.toNat = (c.toNat ||| (u.toNat <<< 17) ||| (if sc then 1 <<< 34 else 0)) := by
+  unfold encodeHeaderCompressed
+  have h1 := signExtend64_nonneg c (by omega)
+  have h2 := signExtend64_nonneg u (by omega)
+  have h3 : u.toNat <<< 17 % 18446744073709551616 = u.toNat <<< 17 := by
+    rw [Nat.shiftLeft_eq]; omega
+  cases sc <;> simp [BitVec.toNat_or, BitVec.toNat_shiftLeft, h1, h2, h3]
+
 end Cql.GoFnTie
